@@ -280,6 +280,8 @@ class TimeRange(object):
                 in_range = False
             elif self.end is not None and comparison_time_sec >= self.end:
                 in_range = False
+                # P1 time has reached the end of the range, even if no message was in range before this one.
+                self._in_range_ended = True
             else:
                 in_range = True
 
